@@ -303,6 +303,10 @@ func handlePolling(s *Session, hdr header, buf []byte) (int, bool, error) {
 }
 
 func handleHotRestart(s *Session, hdr header, buf []byte) (int, bool, error) {
+	// only a session owned by a SessionManager can be asked to hot restart
+	if s.manager == nil {
+		return headerSize, false, ErrInvalidMsgType
+	}
 	if len(buf) < epochIDLen {
 		return 0, true, nil
 	}
